@@ -57,13 +57,17 @@ type zzGen struct {
 	next   int
 	budget int
 	c09    bool
+	lite   bool // quick tier: fewer statement kinds, outcomes and iterations
 }
 
 func (g *zzGen) tag() int { g.next++; return g.next }
 
 func (g *zzGen) truthSeq() []bool {
-	// number of leading true evaluations: 0..2, then false
+	// number of leading true evaluations: 0..2 (lite: 1..2), then false
 	n := zz.Choose(3)
+	if g.lite {
+		n = 1 + zz.Choose(2)
+	}
 	s := make([]bool, n+1)
 	for i := 0; i < n; i++ {
 		s[i] = true
@@ -79,6 +83,9 @@ func (g *zzGen) gen(depth int, inLoop bool) *zzNode {
 	}
 	g.budget--
 	kinds := []int{nLeaf, nSeq, nIf, nSwitch, nLoopInf, nLoopCond, nCFor, nForIn, nTry, nFunc, nModule}
+	if g.lite {
+		kinds = []int{nIf, nLoopInf, nLoopCond, nCFor, nForIn, nTry, nFunc}
+	}
 	k := kinds[zz.Choose(len(kinds))]
 	n := &zzNode{k: k, tag: g.tag(), deferErr: -1}
 	switch k {
@@ -149,6 +156,9 @@ func (g *zzGen) gen(depth int, inLoop bool) *zzNode {
 
 func (g *zzGen) leaf(inLoop bool) *zzNode {
 	outs := []int{oNormal, oReturn, oError, oThrow}
+	if g.lite {
+		outs = []int{oNormal, oReturn, oError}
+	}
 	if inLoop {
 		outs = append(outs, oBreak, oContinue)
 	}
@@ -169,6 +179,7 @@ type zzRefState struct {
 	result       int64 // value of the last return / expression (tag based)
 	hasRes       bool
 	rootReturned bool
+	throughTry   string // set when break/continue/return leaves a try body
 	depth        int
 }
 
@@ -273,6 +284,7 @@ func (st *zzRefState) ref(n *zzNode) int {
 				return o
 			}
 		} else if o != oNormal {
+			st.throughTry = "/" + []string{"", "break", "continue", "return"}[o] + "-through-try"
 			return o // control signals pass through
 		}
 		if n.hasFin {
@@ -468,8 +480,15 @@ func zzSameTrace(a, b []int) bool {
 
 // zzControl runs one abstract program of the given depth inside a function
 // body (so that `return` is meaningful) and compares with the reference.
-func zzControl(depth int, c09 bool, prefix string) {
-	g := &zzGen{budget: 4, c09: c09}
+func zzControl(depth int, c09 bool, prefix string) { zzControlB(depth, 4, c09, prefix) }
+
+// zzControlB: budget bounds the number of compound statements in the program.
+func zzControlB(depth, budget int, c09 bool, prefix string) {
+	zzControlL(depth, budget, c09, false, prefix)
+}
+
+func zzControlL(depth, budget int, c09, lite bool, prefix string) {
+	g := &zzGen{budget: budget, c09: c09, lite: lite}
 	prog := g.gen(depth, false)
 	root := &zzNode{k: nFunc, kids: []*zzNode{prog}, deferErr: -1}
 	ref := &zzRefState{evals: map[int]int{}}
@@ -479,7 +498,10 @@ func zzControl(depth int, c09 bool, prefix string) {
 	stmt := b.build(root)
 	e := zzControlEnv(b)
 	zz.ResetTrace()
-	zz.Budget(2000000)
+	// obligations of programs in which a control signal leaves a try body are
+	// named apart (known finding: runTryStmt catches the signals)
+	prefix += ref.throughTry
+	zz.Budget(300000)
 	zz.UnwindIsViolation("terminates." + prefix)
 	v, err := Run(e, &Options{Debug: false}, stmt)
 	zz.Assert((err == nil) == (ro != oError), prefix+".error-status")
@@ -498,3 +520,11 @@ func ZZ_C08_control_d3()   { zzControl(3, false, "C08") }
 func ZZ_C09_try_defer_d1() { zzControl(1, true, "C09") }
 func ZZ_C09_try_defer_d2() { zzControl(2, true, "C09") }
 func ZZ_C09_try_defer_d3() { zzControl(3, true, "C09") }
+
+func ZZ_C08_control_d2_b2()   { zzControlB(2, 2, false, "C08") }
+func ZZ_C09_try_defer_d2_b2() { zzControlB(2, 2, true, "C09") }
+func ZZ_C08_control_d3_b3()   { zzControlB(3, 3, false, "C08") }
+func ZZ_C09_try_defer_d3_b3() { zzControlB(3, 3, true, "C09") }
+
+func ZZ_C08_control_d2_lite()   { zzControlL(2, 2, false, true, "C08") }
+func ZZ_C09_try_defer_d2_lite() { zzControlL(2, 2, true, true, "C09") }
